@@ -90,6 +90,12 @@ func genCase(t *rapid.T, raw bool) *caseSpec {
 		}
 		c.headers = kept
 	}
+	// an offer to switch protocols (h2c, websocket) is only an offer: the request still has its body
+	// and is a request like any other
+	if rapid.IntRange(0, 5).Draw(t, "upgradeOffer") == 0 {
+		c.headers = append(c.headers, [2]string{"Connection", rapid.SampledFrom([]string{"Upgrade", "keep-alive, Upgrade", "upgrade, HTTP2-Settings"}).Draw(t, "connectionOptions")},
+			[2]string{"Upgrade", rapid.SampledFrom([]string{"h2c", "websocket"}).Draw(t, "upgradeTo")})
+	}
 	if rapid.IntRange(0, 2).Draw(t, "contentType") == 0 {
 		c.headers = append(c.headers, [2]string{"Content-Type", rapid.SampledFrom([]string{"application/x-www-form-urlencoded", "application/json", "multipart/form-data; boundary=x"}).Draw(t, "ct")})
 	}
